@@ -181,7 +181,7 @@ def run_spec(module, payload, workers=8, timeout=3000, xmx="6g"):
         outdir = os.path.join(work, "out")
         os.mkdir(outdir)
         json.dump(payload, open(batch, "w"))
-        cmd = ["java", "-XX:+UseParallelGC", "-Xmx" + xmx, "-cp", TLC_CP, "tlc2.TLC", "-workers", str(workers), "-metadir",
+        cmd = ["java", "-XX:+UseParallelGC", "-Xmx" + xmx, "-Xss64m", "-cp", TLC_CP, "tlc2.TLC", "-workers", str(workers), "-metadir",
                os.path.join(work, "meta"), "-noGenerateSpecTE", "-config", os.path.join(SPEC_DIR, module + ".cfg"),
                os.path.join(SPEC_DIR, module + ".tla")]
         p = subprocess.run(cmd, cwd=SPEC_DIR, env=dict(os.environ, BATCH_FILE=batch, OUT_DIR=outdir), capture_output=True,
@@ -194,6 +194,10 @@ def run_spec(module, payload, workers=8, timeout=3000, xmx="6g"):
             except Exception:
                 pass
         ok = p.returncode == 0 and bool(m)
-        return ok, (int(m.group(1)) if m else 0), (int(m.group(2)) if m else 0), verdicts, p.stdout[-2000:]
+        err = ""
+        if not ok:
+            i = p.stdout.find("Error:")
+            err = p.stdout[max(0, i - 200):i + 1500] if i >= 0 else p.stdout[-2000:]
+        return ok, (int(m.group(1)) if m else 0), (int(m.group(2)) if m else 0), verdicts, err
     finally:
         shutil.rmtree(work, ignore_errors=True)
